@@ -164,7 +164,7 @@ def random_case(rng, long_stream=False):
 
 def round_case(rng, n):
     """The rounding alone, through memory: aware datetimes with arbitrary (also sub-millisecond)
-    utcoffsets."""
+    utcoffsets.  Expected (model, since 49e3288): floor_ms / floor_ms + 1000 of the UTC instant whatever the offset."""
     qs = []
     offs_us = [0, 3600 * SEC, -5 * 3600 * SEC - 1800 * SEC, 1172 * SEC, 1, 999, 1500, -37, 500_000, -999_999]
     for _ in range(n):
@@ -433,7 +433,7 @@ def replay_obj(case, backend, at, impl=None, model=None, stored=None):
 def main(argv=None):
     ck = Check("C03", argv)
     common.setup_impl_env()
-    ck.run_witnesses(["w02", "w04", "w18"])
+    ck.run_witnesses(["w02", "w04", "w18", "w23"])
     ck.prove(extra_targets=["Model/WindowFloat.v", "Model/SqliteDate.v", "Bridge/BridgeWindow.v"],
              gen_kernels=["Bucket.get", "Bucket.get_eventcount", "MemoryStorage.get_events.filters",
                           "MemoryStorage.get_eventcount", "PeeweeStorage.get_events.trim",
@@ -694,13 +694,17 @@ def main(argv=None):
         "the parameters are evaluated bit-exactly inside Coq (Model/WindowFloat.v) for every query and fed to the model",
         "TEXT comparison of isoformat(' ') against strftime('%f') output is modelled arithmetically "
         "(Window.text_le_iso_ms); compared exactly on every peewee query",
-        "window datetimes carry whole-minute utcoffsets (-12h..+14h); sub-millisecond utcoffsets are exercised for the "
-        "rounding alone (round_start_tz / round_end_tz)",
+        "window datetimes of the main streams carry whole-minute utcoffsets (-12h..+14h); utcoffsets that are not whole "
+        "milliseconds are exercised for the rounding alone (bucket_round_start_tz / bucket_round_end_tz: since 49e3288 "
+        "Bucket.get converts an aware edge to UTC first, the rounded edge is floor_ms / floor_ms + 1000 of the instant for "
+        "every offset) and, composed with the reads of all three back ends, by the zoned-window stream "
+        "(harness/c03_zoned.py: zones with folds and gaps, fixed offsets of +19:32.0005 and -0.000037 s)",
         "ties in timestamp: memory keeps the later-inserted first, sqlite the higher id first, peewee the lower id first "
         "(observed; modelled as stable sorts; compared exactly)",
     ]
-    # windows are instants: the zone they are written in must not matter (harness/c03_zoned.py; the one difference on
-    # the unchanged tree, an end edge with fold=1, is the open known finding C03:window-end-in-fold)
+    # windows are instants: the zone they are written in must not matter (harness/c03_zoned.py; the former known finding
+    # C03:window-end-in-fold, an end edge with fold=1, is repaired by 49e3288 - witness w23 - and every difference is
+    # a failing input)
     from . import c03_zoned
     try:
         c03_zoned.zoned_check(ck)
